@@ -491,8 +491,13 @@ class C18(Check):
                 fail(kind, si, got_outcome=outcome, model_outcome=expected_outcome, n_got=len(got), n_want=len(exp), ending=end,
                      text=st.get('text'), tokens=st.get('tokens'))
                 break
-            if got != exp:
-                i = next((i for i, (a, b) in enumerate(zip(got, exp)) if a != b), min(len(got), len(exp)))
+            # the tokens the Indenter passes through are compared whole; the INDENT / DEDENT tokens it makes up are compared by type only
+            # (the statement says when they are emitted, not what value or position they carry)
+            synth = (names['ind'], names['ded'])
+            got_c = [(t[0],) if t[0] in synth else t for t in got]
+            exp_c = [(t[0],) if t[0] in synth else t for t in exp]
+            if got_c != exp_c:
+                i = next((i for i, (a, b) in enumerate(zip(got_c, exp_c)) if a != b), min(len(got), len(exp)))
                 fail('tokens-differ(%s)' % _pred(abnormal_before), si, index=i, got=got[max(0, i - 2):i + 3], want=exp[max(0, i - 2):i + 3],
                      n_got=len(got), n_want=len(exp), ending=end, outcome=outcome, text=st.get('text'), tokens=st.get('tokens'))
                 break
